@@ -187,14 +187,14 @@ def run_family(name, scenario, build, jobs=8, known=None, twin_merge=None, keep=
 
     with concurrent.futures.ThreadPoolExecutor(max_workers=jobs) as ex:
         results = list(ex.map(work, range(len(flat))))
+    generr = 0
     for i, trace, res, aborted in results:
         fr.events += res["events"]
         fr.lines += res["lines"]
         fr.unspec += res["unspec"]
         fr.lostskip += res["lostskip"]
         fr.decoded += res["decoded"]
-        if res.get("generr", 0):
-            raise ToolError("family %s: %d line(s) labelled removable by the generator are not removable per the specification" % (name, res["generr"]))
+        generr += res.get("generr", 0)
         fr.states += res["states"]
         for k, v in res["class"].items():
             fr.classes[k] = fr.classes.get(k, 0) + v
@@ -219,6 +219,10 @@ def run_family(name, scenario, build, jobs=8, known=None, twin_merge=None, keep=
             fr.samples = flat[i][:3]
     if not keep:
         shutil.rmtree(wdir, ignore_errors=True)
+    if generr and not fr.nviol:
+        # on a conforming run the specification must agree with the generator's labels; once the code has
+        # deviated the tracked state may differ from the generator's view, and the labels mean nothing
+        raise ToolError("family %s: %d line(s) labelled removable by the generator are not removable per the specification" % (name, generr))
     fr.wall_s = round(time.time() - t0, 1)
     return fr
 
